@@ -53,6 +53,10 @@ LEVEL_TEXT += (
     "both cell-set parsers skip the gmsh namespace; legacy names are "
     "resolved by number and dimension, unnamed groups never become the "
     "key None; point data has one value per stored point.")
+LEVEL_TEXT += (
+    " Added in the fourth hunting round (DESIGN.md 9.6): "
+    "to_meshio re-binds the user's point_data / cell_data to new "
+    "containers before meshio sees them.")
 LEVEL_NOTE = ("Trusted: meshio reads what it writes; numpy savez/load, "
               "nonzero/sort/argsort semantics.")
 EXPLANATION = "Symmetry / typing / effect rules on the I/O code."
